@@ -253,7 +253,7 @@ func (w FederatingWrappedCallbacks) create(c context.Context, a vocab.ActivitySt
 			}
 			t, err = streams.ToType(c, m)
 			if err != nil {
-				return err
+				return fmt.Errorf("cannot resolve the dereferenced object: %s", err)
 			}
 		} else if t == nil {
 			return fmt.Errorf("cannot handle federated create: object is neither a value nor IRI")
@@ -519,7 +519,7 @@ func (w FederatingWrappedCallbacks) accept(c context.Context, a vocab.ActivitySt
 				}
 				t, err = streams.ToType(c, m)
 				if err != nil {
-					return err
+					return fmt.Errorf("cannot resolve the dereferenced object: %s", err)
 				}
 			} else if t == nil {
 				return fmt.Errorf("cannot handle federated create: object is neither a value nor IRI")
